@@ -60,7 +60,7 @@ Definition sp_clear (s : spec) : spec :=
          [] (sp_flushes s).
 
 (** * expected observables *)
-Inductive sx := XZ (z : Z) | XN (n : N) | XB (b : bytes).
+Inductive sx := XZ (z : Z) | XN (n : N) | XB (b : bytes) | XC (b : bytes).
 Inductive sexp := EAny | ES (x : sx) | EL (l : list bytes) | ERes (r : N) | EDump (l : list sx).
 
 Definition nonempty (b : bytes) : bool := negb (bytes_eqb b []).
@@ -72,6 +72,8 @@ Definition sx_match (strict : bool) (x : sx) (o : sout) : bool :=
   | XN n, SN n' => n =? n'
   | XB b, SVal v => bytes_eqb b (nb v)
   | XB b, SGet ex v => bytes_eqb b (nb v) && (negb strict || Bool.eqb ex (nonempty b))
+  (* committed value in the EVM's convention: an absent value may read as nil or as the zero hash *)
+  | XC b, SVal v => if nonempty b then bytes_eqb b (nb v) else (bytes_eqb (nb v) [] || bytes_eqb (nb v) zero32)
   | _, _ => false
   end.
 Fixpoint dump_match (strict : bool) (l : list sx) (l' : list sout) : bool :=
@@ -139,7 +141,7 @@ Definition spec_step (e : env) (s : spec) (o : op) (obs : out) : spec * sexp :=
   | GetNonce a => (s, ES (XN (sa_nonce (sm_acct_get cur a))))
   | GetCode a => (s, ES (XB (sa_code (sm_acct_get cur a))))
   | GetSt a k => (s, ES (XB (sm_st_get cur a k)))
-  | GetCommitted a k => (s, ES (XB (sm_st_get (sp_fl s) a k)))     (* the value as of the block start *)
+  | GetCommitted a k => (s, ES (XC (sm_st_get (sp_fl s) a k)))     (* the value as of the block start *)
   | Query a p => (s, EL (live_values cur a p))
   | SetBal a z =>
       let x := sm_acct_get cur a in
@@ -193,13 +195,25 @@ Definition spec_step (e : env) (s : spec) (o : op) (obs : out) : spec * sexp :=
   | Dump accts ks => (sp_clear s, EDump (spec_dump cur accts ks))
   end.
 
-(** * the domain of the refinement theorem (decidable, evaluated along the specification run) *)
+(** * domains (decidable, evaluated along the specification run)
+
+    [wf_op_b] gates the predicate evaluated on traces: past the first op outside it the
+    specification makes no claim.  [wf_thm_b] is the (smaller) domain of the refinement theorem. *)
+Definition read_only (o : op) : bool :=
+  match o with
+  | GetBal _ | GetNonce _ | GetCode _ | GetSt _ _ | GetCommitted _ _ | Query _ _ | Version | DbDump => true
+  | _ => false
+  end.
+
 Definition wf_op_b (s : spec) (o : op) : bool :=
-  (if sp_pend s then match o with Commit h => h =? sp_max s + 1 | _ => false end else true) &&
+  (* between a flush and its commit only the commit of the next height and reads *)
+  (if sp_pend s then match o with Commit h => h =? sp_max s + 1 | _ => read_only o end else true) &&
   match o with
   | Revert id => match alookup N.eqb id (sp_snaps s) with Some (_, t) => negb t | None => true end
   | SetCode _ c => negb (is_nil c)
   | SetSt _ k _ | AddSt _ k _ => key_ok k
+  (* LRU evictions happen while a flush fills the cache, never inside a transaction *)
+  | Evict _ _ _ => match sp_snaps s with [] => true | _ => false end
   | Rollback h =>
       (* inside the window the target must be a height recorded by a commit *)
       if (sp_max s <? h) || ((h <? sp_min s) && negb ((sp_min s =? 1) && (h =? 0))) || (sp_max s =? h) then true
@@ -207,32 +221,36 @@ Definition wf_op_b (s : spec) (o : op) : bool :=
   | _ => true
   end.
 
-(** * P_b, part 1: the trace agrees with the specification.
-    Result: None = agrees on the whole well-formed prefix; Some i = first disagreement. *)
-Fixpoint spec_agree (strict : bool) (e : env) (s : spec) (ops : list op) (outs : list out) (i : N)
-  : option N * spec :=
-  match ops, outs with
-  | o :: t, x :: t' =>
-      if negb (wf_op_b s o) then (None, s)
-      else let '(s1, ex) := spec_step e s o x in
-           if sexp_match strict ex x then spec_agree strict e s1 t t' (i + 1) else (Some i, s1)
-  | _, _ => (None, s)
-  end.
-
-(** the Prop form of the same predicate, for the theorems *)
-Fixpoint spec_agree_P (strict : bool) (e : env) (s : spec) (ops : list op) (outs : list out) : Prop :=
-  match ops, outs with
-  | o :: t, x :: t' =>
-      wf_op_b s o = true ->
-      sexp_match strict (snd (spec_step e s o x)) x = true /\
-      spec_agree_P strict e (fst (spec_step e s o x)) t t'
-  | _, _ => True
-  end.
-
 (** ops inside the refinement theorem; [GetCommittedState] is specified (it must return the value
     as of the block start) but the code does not implement that: it stays in the predicate that
     is evaluated on traces and outside the theorem *)
 Definition thm_op (o : op) : bool := match o with GetCommitted _ _ => false | _ => true end.
+Definition wf_thm_b (s : spec) (o : op) : bool :=
+  wf_op_b s o && thm_op o && (if sp_pend s then match o with Commit _ => true | _ => false end else true).
+
+(** * P_b, part 1: the trace agrees with the specification.
+    Result: None = agrees on the whole prefix inside the domain [gate]; Some i = first disagreement. *)
+Fixpoint spec_agree_g (gate : spec -> op -> bool) (strict : bool) (e : env) (s : spec)
+         (ops : list op) (outs : list out) (i : N) : option N * spec :=
+  match ops, outs with
+  | o :: t, x :: t' =>
+      if negb (gate s o) then (None, s)
+      else let '(s1, ex) := spec_step e s o x in
+           if sexp_match strict ex x then spec_agree_g gate strict e s1 t t' (i + 1) else (Some i, s1)
+  | _, _ => (None, s)
+  end.
+Definition spec_agree := spec_agree_g wf_op_b.
+
+(** the Prop form of the same predicate, for the theorems *)
+Fixpoint spec_agree_P (gate : spec -> op -> bool) (strict : bool) (e : env) (s : spec)
+         (ops : list op) (outs : list out) : Prop :=
+  match ops, outs with
+  | o :: t, x :: t' =>
+      gate s o = true ->
+      sexp_match strict (snd (spec_step e s o x)) x = true /\
+      spec_agree_P gate strict e (fst (spec_step e s o x)) t t'
+  | _, _ => True
+  end.
 
 (** * P_b, part 2: the root is an injective function of (previous root, change set) *)
 Definition fr_key_eqb (x y : flushrec) : bool :=
@@ -333,4 +351,4 @@ Definition cfg_subsets (c : cfg) : list cfg :=
     (opt (d_query_cache c))) (opt (d_query_nil c))) (opt (d_query_dupkey c)).
 
 (** the open (not repaired) defects of the tree the checks run against *)
-Definition cfg_current : cfg := cfg_pinned.
+Definition cfg_current : cfg := cfg_fixed.
